@@ -25,6 +25,7 @@ def family():
     yield from F.fam_clones_static_and_reared()
     yield from F.fam_clone_guards()
     yield from F.fam_clone_shapes()
+    yield from F.fam_clone_doer_state()
 
 
 def rel_paths(prog):
